@@ -73,6 +73,8 @@ where
         };
 
         if likely(this.can_read_file()) {
+            #[cfg(anydb_verif)]
+            rawdb::verif_tap::emit(rawdb::verif_tap::Event::FileRead { offset: from_offset, len: 0 });
             this.file
                 .seek(SeekFrom::Start(from_offset as u64))
                 .expect("Failed to seek");
@@ -99,6 +101,8 @@ where
     #[inline(always)]
     fn refill_buffer(&mut self) {
         let buffer_len = self.remaining_file_bytes().min(Self::NORMAL_BUFFER_SIZE);
+        #[cfg(anydb_verif)]
+        rawdb::verif_tap::emit(rawdb::verif_tap::Event::FileRead { offset: self.file_offset, len: buffer_len });
         self.file
             .read_exact(&mut self.buffer[..buffer_len])
             .expect("Failed to read file buffer");
